@@ -139,6 +139,37 @@ def ex_overwrite(c, a):
     return {"ret": r}
 
 
+@op("ExtElem", "RWOverwrite")
+def ex_rwoverwrite(c, a):
+    L = c.L
+    fid = c.h["F"]
+    d = bytes(a["data"])
+    rd = {"ret": FAIL}
+    aid1 = L.Hstartread(fid, TAG, a["e"])
+    if aid1 != FAIL:
+        ln = c_int32(-1)
+        L.Hinquire(aid1, None, None, None, ctypes.byref(ln), None, None, None, None)
+        n = max(ln.value, 0)
+        b = CBuf(max(n, 1))
+        r = L.Hread(aid1, n, ctypes.c_void_p(b.p)) if n > 0 else 0
+        rd = {"ret": r}
+        if r != FAIL:
+            rd["data"] = list(b.raw(r))
+        b.free()
+    r = FAIL
+    aid2 = L.Hstartaccess(fid, TAG, a["e"], DFACC_WRITE)
+    if aid2 != FAIL:
+        if L.Hseek(aid2, a["pos"], 0) != FAIL:
+            b = CBuf(len(d), d)
+            r = L.Hwrite(aid2, len(d), ctypes.c_void_p(b.p))
+            b.free()
+        if L.Hendaccess(aid2) == FAIL:
+            r = FAIL
+    if aid1 != FAIL:
+        L.Hendaccess(aid1)
+    return {"ret": r, "rd": rd}
+
+
 @op("ExtElem", "Attach")
 def ex_attach(c, a):
     aid = c.L.Hstartaccess(c.h["F"], TAG, a["e"], DFACC_RDWR)
